@@ -21,7 +21,8 @@ func init() {
 			"only accessed with the mutex held, the pending counter and the closed flag only through sync/atomic; (R5) posted handlers are " +
 			"invoked only from the function Poll calls, and in the code reachable from the goroutine started by AsyncHandshake the " +
 			"stream state is not written and the user callback is not invoked except inside the closure handed to Post, which is " +
-			"reached on every path. Not decided: data races in user code, scheduler fairness, that the eventfd write itself cannot block.",
+			"reached on every path; (R6) a *Slot handed out by an accessor or passed to a registration is an interior pointer of the object " +
+			"the caller holds, never of a by-value copy (the kernel keeps the waker slot's address invisibly to the collector). Not decided: data races in user code, scheduler fairness, that the eventfd write itself cannot block.",
 		Run: runC05,
 	})
 	addMutants("C05",
